@@ -72,6 +72,7 @@ func routeInputs() []inputStmt {
 		{"bind-if-init", "var in In\n\tif err := c.Bind(&in); err != nil {\n\t\treturn err\n\t}", func(r *Route) { r.Input = "In" }},
 		{"bind-define", "var in2 In\n\terrB := c.Bind(&in2)\n\t_ = errB", func(r *Route) { r.Input = "In" }},
 		{"bind-map-var", "inM := M{}\n\t_ = c.Bind(inM)", func(r *Route) { r.Input = "M" }},
+		{"bind-same-spelling-as-other-route", "var idsSame []int64\n\t_ = c.Bind(&idsSame)", func(r *Route) { r.Input = "[]int64" }},
 		{"bind-slice", "var ids []IdDossier\n\t_ = c.Bind(&ids)", func(r *Route) { r.Input = "[]IdDossier" }},
 		{"query1", "q1 := c.QueryParam(\"q1\")\n\t_ = q1", q("q1", "string")},
 		{"query2-one-assignment", "qa, qb := c.QueryParam(\"qa\"), c.QueryParam(\"q-b\")\n\t_, _ = qa, qb", func(r *Route) {
@@ -115,6 +116,8 @@ func routeReturns() []returnStmt {
 		{"json-map", "outM := map[string]int{}\n\treturn c.JSON(200, outM)", func(r *Route) { r.Return = "map[string]int" }},
 		{"json-basic", "var code uint\n\treturn c.JSON(200, code)", func(r *Route) { r.Return = "uint" }},
 		{"json-slice-of-ids", "var outIds []IdDossier\n\treturn c.JSON(200, outIds)", func(r *Route) { r.Return = "[]IdDossier" }},
+		// an unnamed type written exactly like the one another route answers with (HandleExt)
+		{"json-same-spelling-as-other-route", "var outSame map[string][]int\n\treturn c.JSON(200, outSame)", func(r *Route) { r.Return = "map[string][]int" }},
 		{"json-named-slice-literal", "return c.JSON(200, [][]string{{\"a\"}})", func(r *Route) { r.Return = "[][]string" }},
 	}
 }
@@ -147,12 +150,18 @@ func Routes(c explore.Chooser) *prog.Program {
 	prefix := s.Pick("prefix", "", "/api", "/zzz", "/api/it", "/inner", "/api/inner", "/api/pkg/sub", "/inner/e")
 	regSite := s.Pick("registration", "in-func", "in-method", "two-funcs", "nested-block", "one-param-returning-error")
 	sameLine := s.Pick("same-line-literals", "no", "yes")
+	earlyReply := s.Pick("early-reply", "no", "yes")
+	sameSpelling := s.Pick("same-spelling-twice", "no", "yes")
 	shadow := s.Pick("shadowed-const", "no", "local-shadows-package-const", "two-locals-same-name", "two-locals-own-handlers")
 
 	// de-duplicate statements using the same variables (same statement chosen twice)
 	seen := map[string]bool{}
 	var body []string
 	r0 := Route{Verb: verb, Pkg: "main"}
+	if earlyReply == "yes" {
+		// the handler already replies (with the type of its last reply) in a branch, before reading its inputs
+		body = append(body, "var okEarly bool\n\tif okEarly {\n\t\t"+strings.ReplaceAll(ret.code, "\n\t", "\n\t\t")+"\n\t}")
+	}
 	for _, in := range chosen {
 		if seen[in.label] {
 			continue
@@ -296,6 +305,13 @@ func Routes(c explore.Chooser) *prog.Program {
 		}
 	}
 	routes = append(routes, extraRoutes...)
+	if sameSpelling == "yes" {
+		// two handlers answer with unnamed types written alike (two type expressions, identical types)
+		a.WriteString("\nfunc sameA(c echo.Context) error {\n\tvar out []string\n\treturn c.JSON(200, out)\n}\n\nfunc sameB(c echo.Context) error {\n\tvar out []string\n\treturn c.JSON(200, out)\n}\n\nfunc routesSame(e *echo.Echo) {\n\te.GET(\"/api/same/a\", sameA)\n\te.GET(\"/api/same/b\", sameB)\n}\n")
+		routes = append(routes,
+			Route{Verb: "GET", URL: "/api/same/a", Handler: "sameA", Return: "[]string", Pkg: "main"},
+			Route{Verb: "GET", URL: "/api/same/b", Handler: "sameB", Return: "[]string", Pkg: "main"})
+	}
 
 	innerSrc := "package inner\n\nimport (\n\t\"fmt\"\n\n\t\"" + echoPath + "\"\n)\n\nconst Url = \"/inner/\"\n\ntype Controller struct{}\n\nfunc (Controller) HandleExt(c echo.Context) error {\n\tvar in []int64\n\tt, v := c.QueryParam(\"query1\"), c.QueryParam(\"query2\")\n\terr := c.Bind(&in)\n\t_ = fmt.Errorf(\"%s%s%s\", t, v, err)\n\tvar out map[string][]int\n\treturn c.JSON(200, out)\n}\n\nfunc TopLevel(c echo.Context) error {\n\treturn nil\n}\n\nfunc QueryParamInt[T ~int64](echo.Context, string) (T, error) { return 0, nil }\n"
 	hdr := "package main\n\nimport (\n\t\"" + echoPath + "\"\n\t\"" + innerPath + "\"\n)\n\n"
